@@ -50,9 +50,9 @@ def _split(RP):
     return noop, push, pop
 
 
-def accepts(RP, w):
+def accepts(RP, w, empty_stack=False):
     """reference A (exact, unbounded stack): saturation of balanced computations on the
-    product of the PDA with the word positions."""
+    product of the PDA with the word positions.  empty_stack=True: acceptance by final state AND empty stack."""
     noop, push, pop = _split(RP)
     n = len(w)
 
@@ -128,6 +128,9 @@ def accepts(RP, w):
             for t in pop_e.get((X, y), ()):
                 add(s, t)
 
+    if empty_stack:
+        # acceptance by final state AND empty stack: a balanced computation from the start configuration
+        return any((f, n) in Bal.get((RP[4], 0), ()) for f in RP[5])
     # Reach: from (q0,0) by balanced segments and unmatched pushes
     start = (RP[4], 0)
     seen = set()
@@ -196,6 +199,18 @@ def language_upto(RP, n):
         for t in itertools.product(RP[1], repeat=k):
             w = ''.join(t)
             if accepts(RP, w):
+                out.add(w)
+    return frozenset(out)
+
+
+def language_upto_empty_stack(RP, n):
+    """words up to length n with a computation from (q0, empty stack) to an accepting state with EMPTY stack"""
+    import itertools
+    out = set()
+    for k in range(n + 1):
+        for t in itertools.product(sorted(RP[1]), repeat=k):
+            w = ''.join(t)
+            if accepts(RP, w, empty_stack=True):
                 out.add(w)
     return frozenset(out)
 
